@@ -14,35 +14,45 @@ and the CE chain is followed into the continuation areas.  Nothing is repaired:
 inconsistencies are reported as fields or as strings in "errors"; TLC decides.
 
 Byte strings are reported as lists of ints (names='list') or as lower-case hex strings
-(names='hex', the lean form the judge uses).  Numbers >= 2^31 are reported as hex strings
-("0x...") because TLC integers are 32 bit.
+(names='hex', the lean form the judge uses).  32-bit on-disc fields are reported as TLC can hold
+them: values >= 2^31 become negative (two's complement), so the two byte orders of a field still
+compare exactly and range clauses reject them; other numbers >= 2^31 (file length) are hex
+strings ("0x...").
 
-Report (see also spec/Susp.tla):
-  lbs, nsect, filelen, root:[extent,len]
+Report (clauses: spec/Susp.tla):
+  lbs, nsect, filelen, root:[extent,len], has_susp, has_rr_entry, px_lens
   regions : [[kind, start_sector, nsect]]          kind in vd|ptable|dir|file
   dirs    : [{id, parent, extent, len, ent (index in recs of the entry in the parent, -1 root),
-              dot, dotdot (indices in recs, -1 when missing), nrec}]
+              dot, dotdot (indices in recs, -1 when missing), nrec}]      breadth first, root = 0
   recs    : [{r (index), d (dir id), k (index in directory), pos:[sector, off],
-              ident, special ("dot"|"dotdot"|""), flags, isdir, reclen, len_fi, pad_fi,
+              ident, special ("dot"|"dotdot"|""), flags, isdir, reclen, len_fi, pad_fi, pad_fi_zero,
               extent:[le,be], size:[le,be], child (dir id this record leads to, -1),
-              xa, su_len, skip,
-              dr : {ents:[entry], sum, pad, pad_zero, stop},
-              ce : [{block, off, len, ents:[entry], sum, stop, inside}],   areas visited
+              xa (CD-ROM XA record found), su_len, skip (bytes in front of the first entry),
+              dr : {ents:[entry], sum (of entry lengths), pad (bytes left), pad_zero, stop},
+              ce : [{block, off, len, ents:[entry], sum, stop, inside}],   areas visited, chain order
               ce_loop (bool), nce_dr (number of CE entries in the record area),
-              rr : {...derived, see _derive()} }]
-  entry   : {sig, len, ver, ...payload}
+              rr : derived, see _derive(): name, has_nm, nm_special, nm_flags, has_px, npx, mode,
+                   nlink, uid, gid, px_len, has_sl, target, sl_ok, sl_flags, comp_flags, has_cl, cl,
+                   ncl, cl_dir, has_pl, pl, npl, pl_dir, re, nre, ntf, present (RR-style bit set of
+                   the RRIP entries found), rr_flags (flags byte of the RR entry, -1 if none)}]
+            stop: "end" (fewer than 4 bytes or zero fill left) | "ST" | "badlen"
+  entry   : {sig, len, ver, bad, ...payload}
               SP {check:[b,b], skip}; CE {block:[le,be], off:[le,be], clen:[le,be]};
               ER {len_id, len_des, len_src, ext_ver, ext_id (text)}; ES {seq}; RR {flags};
               PX {mode:[le,be], nlink:[le,be], uid:[le,be], gid:[le,be], serial:[le,be]|[]};
-              PN {high:[le,be], low:[le,be]}; NM {flags, name}; SL {flags, comps:[[flags,len,bytes]], comps_ok};
-              CL/PL {loc:[le,be]}; TF {flags, stamps (hex)}; others {raw (hex)}
+              PN {high:[le,be], low:[le,be]}; NM {flags, name, nlen};
+              SL {flags, comps:[[flags,len,bytes]], comps_ok};
+              CL/PL {loc:[le,be]}; TF {flags, stamps (hex)}; RE, ST {}; others {raw (hex)}
   ce_areas: [[rec index, block, off, len]]
-  tree    : [{path:[names], kind, mode, nlink (from "." of the directory when a directory),
-              emode, enlink (from the entry itself), target, size, extent, reloc (directory that
-              physically holds RE entries), rec, dir (directory id it stands for, -1), pdir, via_cl}]
+  tree    : [{path:[names], kind ("dir"|"file"|"symlink"|"other", from PX mode / CL), mode, nlink
+              (from "." of the directory when a directory), emode, enlink (from the entry itself),
+              target, size, extent, reloc (directory that physically holds RE entries), rec,
+              dir (directory id it stands for, -1), pdir (logical parent directory id), via_cl}]
+            the Rock Ridge view with relocation undone: a CL record stands for the directory it
+            points to, records carrying RE are not listed where they physically are
   er      : {count, where:[[rec index, "dr"|"ce"]], ids:[text], root_dot_only, version}
   sp      : {found, rec, off, skip, check_ok}
-  errors  : [text]
+  errors  : [text]   structural impossibilities met while reading (never raised)
 """
 import struct
 
